@@ -22,6 +22,7 @@ META = {
                     'distinct concrete residues mean distinct hashes (hash collisions are ignored; a counterexample is '
                     'only reported after its real hashes were compared in the replay)'],
 }
+META['bounds'].append('exchange rates built under 3 pairs of default rounding modes')
 
 
 def setup(mode):
